@@ -663,6 +663,35 @@ pub fn cache(attr: TokenStream, item: TokenStream) -> TokenStream {
         &attrs,
     );
 
+    // Verification hooks: register an inspector for this cache (feature `verif-hooks` only).
+    // Items declared later in the same block (the statics) are in scope here.
+    #[cfg(feature = "verif-hooks")]
+    let (thread_local_branch, global_branch) = {
+        let est_expr = if has_max_memory(&attrs.max_memory) {
+            quote! { Some((|v: &#ret_type| cachelito_core::MemoryEstimator::estimate_memory(v)) as fn(&#ret_type) -> usize) }
+        } else {
+            quote! { None }
+        };
+        (
+            quote! {
+                cachelito_core::verif::register_thread::<#ret_type>(
+                    #fn_name_str, &#cache_ident, &#order_ident, #est_expr);
+                #thread_local_branch
+            },
+            quote! {
+                {
+                    use std::sync::Once;
+                    static VERIF_REGISTER_ONCE: Once = Once::new();
+                    VERIF_REGISTER_ONCE.call_once(|| {
+                        cachelito_core::verif::register_global::<#ret_type>(
+                            #fn_name_str, &#cache_ident, &#order_ident, #est_expr);
+                    });
+                }
+                #global_branch
+            },
+        )
+    };
+
     // Generate final expanded code
     let scope_expr = &attrs.scope;
     let expanded = quote! {
